@@ -14,7 +14,10 @@ BASE = ('int m, m2; int ma[3]; struct { int f; int g; } ms; bool bb; '
         'typedef struct { int f; int g; } ST; const ST cas[2] = {{1,2},{3,4}}; ST mas[2]; '
         'typedef const int CI; CI tc = 3; typedef int AT[3]; const AT cta = {1,2,3}; AT mta; '
         'meta int mm; '
-        'void wr(int &r) { r = 1; } void wra(int &r[3]) { r[0] = 1; } void wrs(ST &r) { r.f = 1; } ')
+        'typedef struct { int b; const int a[2]; } SCA; SCA sca = { 3, { 1, 2 } }; typedef struct { int b; int a[2]; } SMA; SMA sma = { 3, { 1, 2 } }; '
+        'typedef const int celem_t; typedef struct { celem_t e[2]; int b; } SCE; SCE sce = { { 1, 2 }, 3 }; typedef struct { int e[2]; int b; } SME; SME sme = { { 1, 2 }, 3 }; '
+        'SCA scaa[2] = { { 3, { 1, 2 } }, { 4, { 5, 6 } } }; SMA smaa[2] = { { 3, { 1, 2 } }, { 4, { 5, 6 } } }; '
+        'void wr(int &r) { r = 1; } void wra(int &r[3]) { r[0] = 1; } void wrs(ST &r) { r.f = 1; } int ma2[2]; void wra2(int &r[2]) { r[0] = 1; } ')
 
 # ---- write forms on an int lvalue {LV}; {M} = a mutable int lvalue of the same scope
 INT_FORMS = [('assign', '{LV} = 1')]
@@ -34,7 +37,9 @@ def sources():
     # -- int lvalues reachable from an update label (expression context)
     for name, lv, mv in [('const-global', 'cg', 'm'), ('const-array-element', 'ca[1]', 'ma[1]'), ('const-array-element-variable-index', 'ca[m2]', 'ma[m2]'),
                          ('const-struct-field', 'cs.f', 'ms.f'), ('const-array-of-struct-field', 'cas[1].g', 'mas[1].g'),
-                         ('typedef-const', 'tc', 'm'), ('const-typedef-array-element', 'cta[0]', 'mta[0]')]:
+                         ('typedef-const', 'tc', 'm'), ('const-typedef-array-element', 'cta[0]', 'mta[0]'),
+                         ('const-array-field-of-mutable-struct', 'sca.a[0]', 'sma.a[0]'), ('const-element-typedef-array-field', 'sce.e[1]', 'sme.e[1]'),
+                         ('const-array-field-of-struct-array-element', 'scaa[1].a[0]', 'smaa[1].a[0]')]:
         S.append(dict(name=name, where='update', lv=lv, mv=mv))
         S.append(dict(name=name + '@function', where='function', lv=lv, mv=mv, fparams='', flocals=''))
     S.append(dict(name='const-template-local', where='update', lv='cl', mv='ml', tdecl='const int cl = 1; int ml; '))
@@ -49,6 +54,8 @@ def sources():
     S.append(dict(name='const-ref-parameter', where='function', lv='p', mv='q', fparams='const int &p, int &q', flocals=''))
     S.append(dict(name='const-ref-array-parameter', where='function', lv='p[0]', mv='q[0]', fparams='const int &p[3], int &q[3]', flocals=''))
     S.append(dict(name='const-ref-struct-parameter', where='function', lv='p.f', mv='q.f', fparams='const ST &p, ST &q', flocals=''))
+    S.append(dict(name='const-array-field-of-reference-parameter', where='function', lv='p.a[0]', mv='q.a[0]', fparams='SCA &p, SMA &q', flocals=''))
+    S.append(dict(name='const-array-field-of-function-local-struct', where='function', lv='ls.a[1]', mv='lm.a[1]', fparams='', flocals='SCA ls = { 1, { 1, 2 } }; SMA lm = { 1, { 1, 2 } }; '))
     S.append(dict(name='iteration-binder', where='function', lv='k', mv='l', fparams='', flocals='int l; for (k : int[0,1]) { ', fclose=' }'))
     S.append(dict(name='iteration-binder-nested', where='function', lv='k', mv='l', fparams='', flocals='int l; for (j : int[0,1]) for (k : int[0,1]) { ', fclose=' }'))
     S.append(dict(name='select-binder', where='update', lv='s', mv='m', select='s : int[0,2]'))
@@ -62,7 +69,8 @@ def whole_object_cells():
             ('whole-typedef-array-assign', 'cta = mta', 'mta = cta'),
             ('ref-argument-array', 'wra(ca)', 'wra(ma)'), ('ref-argument-typedef-array', 'wra(cta)', 'wra(mta)'),
             ('ref-argument-struct-element', 'wrs(cas[0])', 'wrs(mas[0])'),
-            ('struct-element-assign', 'cas[0] = mas[0]', 'mas[0] = cas[0]')]
+            ('struct-element-assign', 'cas[0] = mas[0]', 'mas[0] = cas[0]'),
+            ('whole-const-array-field-assign', 'sca.a = ma2', 'sma.a = ma2'), ('ref-argument-const-array-field', 'wra2(sca.a)', 'wra2(sma.a)')]
 
 
 def instantiation_cells():
